@@ -38,13 +38,7 @@ import (
 
 func init() {
 	register("c15_mappedpath", c15ExtractMappedPath)
-	registerFallback("c15_mappedpath", "C15MappedPath.v", "(* Gen/C15MappedPath.v — translator tie UNAVAILABLE: tools/go2v (extractor \"c15_mappedpath\") did not recognise the\n"+
-		"   shape of compose/workflow.go:checkAndAddMappedPath; the model's own function is re-exported. *)\n"+
-		"From Eino Require Import Base.Util Base.FMUniverse Model.FieldMap Model.FieldMapGenLib.\n\n"+
-		"Definition tie_available : bool := false.\n"+
-		"Definition check_and_add_mapped_path (canon : path -> path) (root : root_state) (paths : list path) : option (option root_state) :=\n"+
-		"  Some (option_map Some (tinsert_all (map canon (match paths with [] => [[]] | _ => paths end))\n"+
-		"                                     (match root with Some t => t | None => Node [] end))).\n")
+	registerFallback("c15_mappedpath", "C15MappedPath.v", c15RefMappedPath)
 }
 
 const c15Root = `n.mappedFieldPath[""]`
